@@ -203,7 +203,7 @@ theorem recv_QInv {s : State} (h : QInv s) (remote : Remote) (mcLocal : Bool) (w
   · exact recvDup_QInv h _ _
   · dsimp only
     apply recvCode_QInv
-    have h0 : QInv (if isRequest w.code = true then
+    have h0 : QInv (if dedupable w = true then
         { s with recent := s.recent ++ [{ remote, mid := w.mid, reply := none,
                                           expiry := s.now + s.cfg.exchangeLifetime }] } else s) := by
       split
